@@ -369,6 +369,15 @@ def family_cases(ctx):
                                                 % (4 * i + 1, i, name, i, 4 * i + 2, i, name, i, 4 * i + 3, i, i, 4 * i + 4, i, i) for i in range(k)) + "}\n"
             fs["prog.thrift"] = root
             add("samename-%s-%d" % (name, k), fs)
+    # a user type named like the helper-name stem of a native type, used in the same container / pointer shapes as that type
+    native = {"Bool": "bool", "Byte": "byte", "I8": "i8", "I16": "i16", "I32": "i32", "I64": "i64", "Double": "double", "String": "string", "Binary": "binary"}
+    for gname, tname in sorted(native.items()):
+        for kind, decl in (("typedef", "typedef %s %s\n" % (tname, gname)), ("enum", "enum %s { A = 1 }\n" % gname), ("struct", "struct %s { 1: optional i32 v }\n" % gname)):
+            key = "string" if kind == "struct" or tname in ("double", "binary") else gname
+            body = decl + ("struct Packet {\n  1: optional %s a\n  2: optional %s b\n  3: optional list<%s> c\n  4: optional list<%s> d\n"
+                           "  5: optional map<string, %s> e\n  6: optional map<string, %s> f\n  7: optional map<%s, i32> g\n}\n"
+                           % (tname, gname, tname, gname, tname, gname, key))
+            add("nativename-%s-%s" % (gname, kind), {"prog.thrift": body})
     # service inheritance across files where each file includes only its parent's file
     add("svc-chain-4-files", {"prog.thrift": 'include "./mid.thrift"\nservice Top extends mid.Mid { void top(1: i32 a) }\n',
                               "mid.thrift": 'include "./sub/low.thrift"\nstruct MidArg { 1: optional i32 x }\nservice Mid extends low.Low { MidArg mid(1: MidArg a) }\n',
